@@ -93,7 +93,7 @@ func genC11(seed uint64, index int, tier string) C11Cfg {
 		s.T = 2
 	}
 	s.Strategy = pickStr(r, netsim.Strategies)
-	s.Serial = r.Bool(0.7)
+	s.Serial = true
 	if r.Bool(0.3) {
 		s.Late = r.Intn(b.n)
 	}
